@@ -119,6 +119,7 @@ func (r *RoundRobin) nextServer() (*server, error) {
 	defer r.mutex.Unlock()
 
 	if len(r.servers) == 0 {
+		verifEmit("rr.pick", r, "", 0, "empty")
 		return nil, ErrNoServers
 	}
 
@@ -138,12 +139,14 @@ func (r *RoundRobin) nextServer() (*server, error) {
 			if r.currentWeight <= 0 {
 				r.currentWeight = maxWeight
 				if r.currentWeight == 0 {
+					verifEmit("rr.pick", r, "", 0, "allzero")
 					return nil, errors.New("all servers have 0 weight")
 				}
 			}
 		}
 		srv := r.servers[r.index]
 		if srv.weight >= r.currentWeight {
+			verifEmit("rr.pick", r, srv.url.String(), srv.weight, "ok")
 			return srv, nil
 		}
 	}
@@ -160,6 +163,7 @@ func (r *RoundRobin) RemoveServer(u *url.URL) error {
 	}
 	r.servers = append(r.servers[:index], r.servers[index+1:]...)
 	r.resetState()
+	verifEmit("rr.remove", r, u.String())
 	return nil
 }
 
@@ -202,6 +206,7 @@ func (r *RoundRobin) UpsertServer(u *url.URL, options ...ServerOption) error {
 			}
 		}
 		r.resetState()
+		verifEmit("rr.upsert", r, s.url.String(), s.weight, "update")
 		return nil
 	}
 
@@ -218,6 +223,7 @@ func (r *RoundRobin) UpsertServer(u *url.URL, options ...ServerOption) error {
 
 	r.servers = append(r.servers, srv)
 	r.resetState()
+	verifEmit("rr.upsert", r, srv.url.String(), srv.weight, "add")
 	return nil
 }
 
